@@ -542,7 +542,7 @@ func editDropElse(p *parsed, site int) (string, int) {
 	return desc, done
 }
 
-var calleeSwap = map[string]string{"h1": "h2", "h2": "h1", "hs1": "hs2", "hs2": "hs1", "min": "max", "max": "min", "ToUpper": "ToLower", "Index": "LastIndex", "len": "cap"}
+var calleeSwap = map[string]string{"h1": "h2", "h2": "h1", "hs1": "hs2", "hs2": "hs1", "min": "max", "max": "min", "OnesCount": "Len", "Len": "OnesCount", "LeadingZeros8": "TrailingZeros8", "len": "cap"}
 
 func editCallee(p *parsed, site int) (string, int) {
 	n, done := 0, 0
